@@ -1,6 +1,9 @@
 import Dashu.Proofs.Text.FloatParse
 import Dashu.Proofs.Text.FloatGrammar
 import Dashu.Proofs.Text.FloatPrec
+import Dashu.Proofs.Text.FloatPad
+import Dashu.Proofs.Text.ConvDiv
+import Dashu.Proofs.Text.ConvDigits
 /-
   C08 — Float text I/O is lossless; base/precision changes are faithfully rounded.   **partial**
 
@@ -210,9 +213,115 @@ theorem with_precision_unlimited (B : Nat) (m : Mode) (x : FBigM) :
     (fWithPrecision B m coarseNone x 0).1.repr = x.repr ∧ (fWithPrecision B m coarseNone x 0).2 = none :=
   fWithPrecision_zero B m x
 
+/-- **padding never changes the digits** (`Display`, any precision option): the text is
+    `fill^a ++ sign ++ '0'^b ++ core ++ fill^c`; `core` (digits, point, zeros) does not depend on the
+    width, fill, alignment, `+` or zero flag; no width — no padding; the zero flag inserts only zeros,
+    after the sign; without it only fill characters are added, outside -/
+theorem display_padding_keeps_digits (B : Nat) (m : Mode) (f : FmtSpec) (prec : Option Nat) (r : FRepr) :
+    ∃ a b c : Nat,
+      fmtRound B m f prec r =
+        rep a f.fill ++ fSign f.plus r ++ rep b [48] ++ fmtRoundCore B m prec r ++ rep c f.fill ∧
+      (f.width = none → a = 0 ∧ b = 0 ∧ c = 0) ∧ (f.zero = true → a = 0 ∧ c = 0) ∧
+      (f.zero = false → b = 0) :=
+  fmtRound_padding B m f prec r
+
+/-- the same for the scientific formats (`LowerExp`, `UpperExp`, `Binary`, `Octal`, `LowerHex`,
+    `UpperHex`; `0x` follows the sign in the hexadecimal form of base 2) -/
+theorem scientific_padding_keeps_digits (B : Nat) (m : Mode) (f : FmtSpec) (prec : Option Nat)
+    (upper useHex : Bool) (marker : Nat) (r : FRepr) :
+    ∃ a b c : Nat,
+      fmtSciG B m f prec upper useHex marker r =
+        rep a f.fill ++ fSign f.plus r ++ (if useHex then [48, 120] else []) ++ rep b [48] ++
+          fmtSciCore B m prec upper useHex marker r ++ rep c f.fill ∧
+      (f.width = none → a = 0 ∧ b = 0 ∧ c = 0) ∧ (f.zero = true → a = 0) ∧ (f.zero = false → b = 0) :=
+  fmtSciG_padding B m f prec upper useHex marker r
+
+/-- **padded `Display` text parses back to the same value**: with `+`, and with the zero flag and any
+    width (or no width), what `Display` prints parses to exactly the printed float -/
+theorem padded_print_parse_round_trip (W : Nat) (hW : 36 < 2 ^ W) (B : Nat) (hB : validRadix B = true)
+    (m : Mode) (f : FmtSpec) (hf : f.zero = true ∨ f.width = none) (r : FRepr) :
+    ∃ (r' : FRepr) (n : Nat), fromStrNative W B (fmtRound B m f none r) = .ok (r', n) ∧
+      r'.toRat B = r.toRat B :=
+  display_padded_parse W hW B hB m f hf r
+
+/-- … and with a precision option it parses to exactly the rounded value `R · B^(−p)` -/
+theorem padded_print_precision_parse (W : Nat) (hW : 36 < 2 ^ W) (B : Nat) (hB : validRadix B = true)
+    (m : Mode) (f : FmtSpec) (hf : f.zero = true ∨ f.width = none) (p : Nat) (r : FRepr) :
+    ∃ (r' : FRepr) (n : Nat), fromStrNative W B (fmtRound B m f (some p) r) = .ok (r', n) ∧
+      r'.toRat B = (precRounded B m p r : ℚ) * bpowQ B (-(p : Int)) :=
+  display_prec_padded_parse W hW B hB m f hf p r
+
+/-- the long-dividend path of `convert_base` (fix bd48ef9: quotient longer than the precision, rounded
+    once through `round_ratio` with the split-off tail and the division remainder as the fraction)
+    meets the rounding contract for the exact quotient -/
+theorem convert_base_long_dividend_contract (NB : Nat) (hNB : 2 ≤ NB) (m : Mode) (p : Nat) (hp : 1 ≤ p)
+    (num den : FRepr) (hd : 0 < den.signif) (hlong : num.digits NB > p + den.digits NB) :
+    Contract NB m p (num.toRat NB / den.toRat NB) ((divRoundLong NB m p num den).1.toRat NB)
+      (divRoundLong NB m p num den).2 :=
+  divRoundLong_contract NB hNB m p hp num den hd hlong
+
+/-- **base conversion is faithfully rounded on every path that does not go through `ln`/`exp`**:
+    whenever `Context::convert_base` returns through the same-base shortcut, a power-related base, or
+    the small-exponent evaluation (multiplication for `exp ≥ 0`; `repr_div` or the long-dividend path
+    for `exp < 0`), the result is the exact value `signif · B^exp` rounded to `p` digits of the new
+    base under the mode — exact iff representable, with a truthful flag; otherwise less than one ulp
+    (at most half for the nearest modes) on the mode's side.  (`.ok` excludes the `ln`/`exp` branch and
+    the unlimited-precision panic.) -/
+theorem convert_base_exact_paths_contract (W B NB : Nat) (hB : 2 ≤ B) (hNB : 2 ≤ NB) (m : Mode) (p : Nat)
+    (hp : 1 ≤ p) (r : FRepr) (res : Rounded FRepr) (h : convertBase W B NB m p r = .ok res) :
+    Contract NB m p (r.toRat B) (res.1.toRat NB) res.2 :=
+  convertBase_contract W B NB hB hNB m p hp r res h
+
+/-- **never more than one digit beyond the target precision**: whatever `convert_base` returns without
+    going through `ln`/`exp` (different bases) has at most `p + 1` digits of the new base (`p` on the
+    rounding paths; the extra digit only from `repr_div`) -/
+theorem convert_base_result_digits (W B NB : Nat) (hB : 2 ≤ B) (hNB : 2 ≤ NB) (hne : NB ≠ B) (m : Mode)
+    (p : Nat) (hp : 1 ≤ p) (r : FRepr) (res : Rounded FRepr) (h : convertBase W B NB m p r = .ok res) :
+    res.1.digits NB ≤ p + 1 :=
+  convertBase_digits_le W B NB hB hNB hne m p hp r res h
+
 -- non-vacuity
 example : ilogExact 16 2 = 4 ∧ ilogExact 8 2 = 3 ∧ ilogExact 10 2 = 0 ∧ ilogExact 36 6 = 2 := by decide
 example : (2 : Nat) ≤ 10 ∧ (1 : Nat) ≤ 53 := by decide
 example : validRadix 10 = true ∧ validRadix 2 = true ∧ validRadix 36 = true ∧ (36 : Nat) < 2 ^ 64 := by decide
+
+-- every theorem with hypotheses, instantiated on a concrete non-trivial value
+example := convert_base_pow_up_branch 64 2 16 .zero 10 ⟨5, -3⟩ (by decide) (by decide)
+example := convert_base_pow_up_contract 2 4 (by decide) (by decide) .halfEven 3 (by decide) ⟨12345, -7⟩
+example := ilog_exact_sound 16 2 4 (by decide) (by decide)
+example := convert_base_pow_down_branch 64 16 2 .up 7 ⟨-0x1abc, 5⟩ (by decide) (by decide)
+example := convert_base_pow_down_contract 2 4 (by decide) .up 7 (by decide) ⟨-0x1abc, 5⟩
+example := convert_base_small_pos_contract 10 2 (by decide) .halfAway 20 (by decide) ⟨-123456789, 30⟩ (by decide)
+example := with_base_precision_documented 2 10 53 (by decide) (by decide)
+example := parse_literal_exact 64 (by decide) 10 (by decide) true (some true) [1, 2] (some [5, 0]) (some (-3))
+  (by decide) (by decide) (by decide) (by intro z h; cases h; decide)
+example := print_parse_round_trip 64 (by decide) 36 (by decide) .halfEven ⟨-(36 ^ 20 + 1), -25⟩
+example : True := by
+  obtain ⟨r, h, _⟩ := parse_literal_exact 64 (by decide) 10 (by decide) false none [1, 2] (some [5]) none
+    (by decide) (by decide) (by decide) (by intro z h; cases h)
+  have := parse_ok_denotes 64 (by decide) 10 (by decide) _ r _ h
+  trivial
+example := print_precision_text 10 (by decide) .halfEven 2 ⟨-12345, -3⟩
+example := print_precision_rounding 10 (by decide) .up 2 ⟨-12345, -3⟩
+example := print_precision_parse 64 (by decide) 10 (by decide) .away 0 ⟨5, -1⟩
+example := padded_print_parse_round_trip 64 (by decide) 10 (by decide) .zero
+  { zero := true, width := some 20, plus := true } (Or.inl rfl) ⟨-12345, -3⟩
+example := padded_print_precision_parse 64 (by decide) 10 (by decide) .halfAway
+  { zero := true, width := some 20 } (Or.inl rfl) 1 ⟨-12345, -3⟩
+example := display_padding_keeps_digits 10 .zero { width := some 20, align := some .center, fill := [42] } (some 2) ⟨-12345, -3⟩
+example := exact_when_fits 10 .up 5 ⟨123, 4⟩ (by decide)
+example := from_ieee_exact 52 11 0x3FF8000000000000 _ _ rfl
+example := from_ieee_exact 23 8 0x80000001 _ _ rfl
+example := with_precision_contract 10 (by decide) .halfEven 3 (by decide) ⟨⟨-12345, -2⟩, 5⟩ (Or.inr (by decide))
+example := with_precision_unlimited 10 .up ⟨⟨-12345, -2⟩, 5⟩
+example := scientific_padding_keeps_digits 2 .zero { width := some 20, zero := true } (some 2) true true 112 ⟨0x1ff, 3⟩
+example := parse_eq_grammar 64 (by decide) 2 (by decide) [48, 120, 49, 46, 56, 112, 45, 51]
+example := grammar_digit_string 16 [49, 95, 102] false
+
+example := convert_base_long_dividend_contract 2 (by decide) .halfEven 3 (by decide) ⟨12345, 0⟩ ⟨5, 0⟩ (by decide) (by decide)
+example := convert_base_exact_paths_contract 64 2 16 (by decide) (by decide) .zero 10 (by decide) ⟨5, -3⟩ _
+  (convert_base_pow_up_branch 64 2 16 .zero 10 ⟨5, -3⟩ (by decide) (by decide))
+example := convert_base_result_digits 64 2 16 (by decide) (by decide) (by decide) .zero 10 (by decide) ⟨5, -3⟩ _
+  (convert_base_pow_up_branch 64 2 16 .zero 10 ⟨5, -3⟩ (by decide) (by decide))
 
 end Dashu.Props.C08
